@@ -26,3 +26,13 @@ for p, mods, corr in (
 ):
     PROPS[p] = {"lean_modules": mods, "corr": corr, "trusted": CORE_TRUST, "assumptions": CORE_ASSUME,
                 "explanation": "Theorems about the model of src/resolver.rs; correspondence of DepGraph::new, resolve_requirements, AuditGraph::build (edge dump), search (three modes) and resolve with the model on generated worlds; specification-level oracles (demand fixpoint, record-level reachability, conflict test) evaluated on the real resolver's output."}
+
+UPD_TRUST = CORE_TRUST + ["final sort() of the rewritten tables is not modelled (outputs compared as sets of kept records)",
+                          "command wiring (acquire, commit) exercised on the real code only"]
+for p, mods in (("C11", ["Vet.Props.C11"]), ("C09", ["Vet.Props.C10"]), ("C10", ["Vet.Props.C10"]), ("C13", ["Vet.Props.C13"])):
+    PROPS[p] = {"lean_modules": mods, "corr": ["corr.wire", "corr.update"], "trusted": UPD_TRUST, "assumptions": CORE_ASSUME,
+                "shards": {"quick": 8, "thorough": 16},
+                "explanation": "Theorems about the model of get_store_updates; correspondence of get_store_updates under six update modes per world; oracles on the real output (function layer) and on the three store files around real commands run on disk against a mock network (command layer)."}
+
+PROPS["C07"] = {"lean_modules": ["Vet.Props.C07"], "corr": ["corr.import"], "trusted": ["TOML parsing of peer files (whether a raw entry parses is an input flag of the model)", "toml/serde layer"], "assumptions": ["peer criteria names interned per source; table keys unique (sorted maps)"],
+                "explanation": "Theorems about the model of the import pipeline; correspondence of Store::mock_online on raw peer TOML served by a mock network (1-2 URLs, unparseable / unknown-criteria / non-importable entries, criteria-map incl. built-in overrides, exclude, lock for staleness marking) with importOne+updateFreshness; leak oracle recomputed from the raw peer data."}
